@@ -77,8 +77,7 @@ Lemma agg_rows_empty_nokeys : forall fs,
 Proof. reflexivity. Qed.
 Lemma agg_rows_empty_keys : forall k keys fs, agg_rows (k :: keys) fs [] = SOk [].
 Proof. reflexivity. Qed.
-(* what the initial state finalizes to: COUNT 0, SUM 0 (the reference demands NULL: class 2), NULL for
-   AVG / MIN / MAX *)
+(* what the initial state finalizes to: COUNT 0, NULL for SUM / AVG / MIN / MAX *)
 Lemma finalize_initial : forall f,
-  finalize f st0 = match kind_of f with KCount | KSum => VInt 0 | _ => VNull end.
+  finalize f st0 = match kind_of f with KCount => VInt 0 | _ => VNull end.
 Proof. intros []; reflexivity. Qed.
